@@ -38,6 +38,7 @@ def jobs(tier):
     if tier == "thorough":
         add("Ba Bc Sa", "Bd", method="lifo")  # one holder on two exchanges with a partly consumed lot: non-linear path conditions, slow queries
         add("Ba Bc Sa", "Bd", method="hifo")
+        add("Ba Sa Ba Sa", "Bd", method="lifo")  # the first lot is consumed in two separate runs (non-adjacent fractions); very slow queries
         add("Ba Bb Bc Sa", "Bd")
         add("Ba Mad Sd", "Bb", todate=True)
         add("Ba Bc Sa", "Bd Sd", method="lifo")
